@@ -363,6 +363,7 @@ type Origin struct {
 	Args    []ssa.Value
 	ViaCall []string
 	AsType  types.Type // static type the root was asserted/dereferenced to
+	Sliced  bool       // the value went through a proper sub-slice x[a:b] on the way (part of the origin, not all of it)
 }
 
 // RootType is the type of the object the path starts at.
@@ -382,6 +383,9 @@ func (o Origin) String() string {
 	p := ""
 	if len(o.Path) > 0 {
 		p = "." + o.PathStr()
+	}
+	if o.Sliced {
+		p += "[part]"
 	}
 	switch o.Kind {
 	case "param":
@@ -508,7 +512,16 @@ func (t *tracer) trace(v ssa.Value, path []string) []Origin {
 		}
 		return os
 	case *ssa.Slice:
-		return t.trace(x.X, path)
+		os := t.trace(x.X, path)
+		if x.Low != nil || x.High != nil {
+			// s[0:] and s[:len(s)] would be whole, but nobody writes those; anything else is a part
+			if k, isC := constInt(x.Low); !(x.High == nil && x.Low != nil && isC && k == 0) {
+				for i := range os {
+					os[i].Sliced = true
+				}
+			}
+		}
+		return os
 	case *ssa.FieldAddr:
 		return t.trace(x.X, append([]string{fieldName(x.X.Type(), x.Field)}, path...))
 	case *ssa.Field:
@@ -721,6 +734,9 @@ func (t *tracer) traceCall(call *ssa.Call, idx int, path []string) []Origin {
 				mapped := t.trace(cc.Args[pi], append([]string{}, ro.Path...))
 				for i := range mapped {
 					mapped[i].ViaCall = append(mapped[i].ViaCall, fnKey(f))
+					if ro.Sliced {
+						mapped[i].Sliced = true
+					}
 				}
 				out = append(out, mapped...)
 			case "const", "zero":
